@@ -540,6 +540,12 @@ func genCborDec(tier string, seed uint64) {
 			emitDec(item)
 		}
 	}
+	if tier == "thorough" {
+		// hunks that are each within the 32 MiB cap, more than the 32 MiB cap in TOTAL: the cap is per hunk
+		hunk := append(headBytes(0x60, 12<<20, 0), bytes.Repeat([]byte{0x61}, 12<<20)...)
+		item := append(append(append(append([]byte{0x7f}, hunk...), hunk...), hunk...), 0xff)
+		emitDec(item)
+	}
 	emitShapes("cbordec", tier)
 	for _, d := range []int{100, 3000} {
 		emitDec(append([]byte(strings.Repeat("\x81", d)), 0x00))
